@@ -16,8 +16,8 @@ from ..sym import SymBool, SymBytes, SymInt, W, byte_of
 def tier_opts(tier, prop=None):
     o = _tier_opts(tier)
     if prop == "C06":  # one path per read call: cheap paths, more of them
-        o["per_shape_paths"] = 120 if tier == "quick" else 2000
-        o["class_paths"] = 120 if tier == "quick" else 6000
+        o["per_shape_paths"] = 120 if tier == "quick" else 1200
+        o["class_paths"] = 120 if tier == "quick" else 1200
     return o
 
 
@@ -26,7 +26,7 @@ def _tier_opts(tier):
         return dict(regions=shapes.REGIONS_QUICK, max_array=2, max_shapes=60, max_dev=1, per_shape_paths=24,
                     class_paths=150, class_seconds=25)
     return dict(regions=shapes.REGIONS_ALL, max_array=2, max_shapes=1500, max_dev=3, per_shape_paths=64,
-                class_paths=1500, class_seconds=240)
+                class_paths=1000, class_seconds=150, wall_budget=27 * 60)
 
 
 def sym_tail(c, n=2):
@@ -191,6 +191,9 @@ def task_class(args):
     if prop not in HARNESS:
         _load_wire()
     t0 = time.time()
+    if opts.get("deadline") and t0 > opts["deadline"]:
+        return {"class": cid, "stats": Stats().to_json(), "shapes": 0, "complete_deviation_depth": -1, "schedule_exhausted": False, "wall": 0,
+                "validated": 0, "validation_mismatch": 0, "skipped": True}
     cls = shapes.class_by_id(cid)
     stats = Stats()
     deadline = t0 + opts["class_seconds"]
@@ -294,6 +297,8 @@ def check(prop, tier, extra_tasks=None, assumptions=None):
     t0 = time.time()
     rep = install.install()
     opts = tier_opts(tier, prop)
+    if opts.get("wall_budget"):
+        opts["deadline"] = t0 + opts["wall_budget"]
     classes = shapes.all_entity_classes()
     targets = shapes.signature_representatives(classes) if tier == "quick" else classes
     if os.environ.get("VERIF_LIMIT"):
@@ -305,6 +310,7 @@ def check(prop, tier, extra_tasks=None, assumptions=None):
     rnd.shuffle(targets)
     total = Stats()
     per_class = []
+    skipped = []
     depth_hist = {}
     exhausted = 0
     validated = 0
@@ -312,6 +318,9 @@ def check(prop, tier, extra_tasks=None, assumptions=None):
     for r in runner.pool_map(task_class, [(prop, shapes.class_id(c), opts) for c in targets], progress=200):
         st = Stats.from_json(r["stats"])
         total.merge(st)
+        if r.get("skipped"):
+            skipped.append(r["class"])
+            continue
         depth_hist[r["complete_deviation_depth"]] = depth_hist.get(r["complete_deviation_depth"], 0) + 1
         exhausted += 1 if r["schedule_exhausted"] else 0
         validated += r.get("validated", 0)
@@ -354,7 +363,8 @@ def check(prop, tier, extra_tasks=None, assumptions=None):
                  "time-typed fields take the listed representatives (whole domain decided by the C05/C11/C12 lemmas)",
                  "payload content (opaque; A3)"],
         rule="one state = one completed symbolic path of the real reader/writer for one (class, shape); distinct by construction (DFS over decision prefixes)",
-        extra={"classes_checked": len(targets), "schedules_exhausted": exhausted, "complete_deviation_depth_histogram": {str(k): v for k, v in depth_hist.items()},
+        extra={"classes_checked": len(targets) - len(skipped), "classes_not_reached_within_wall_budget": len(skipped), "classes_not_reached_sample": skipped[:20],
+               "schedules_exhausted": exhausted, "complete_deviation_depth_histogram": {str(k): v for k, v in depth_hist.items()},
                "primitive_wire_domain_lemmas": lemma_rows,
                "trace_validations": validated, "rebinding_report": {k: v for k, v in rep.items() if k != "__keep__" and v},
                "source_hashes": install.source_hashes()})
